@@ -64,7 +64,7 @@ LITERAL_PIECES = [
     "'tab\\there'", "'tab\there'", "\"trailing   \"", "'''multi\nline\n\n\n\nwith blanks'''", "\"\"\"tab\tin\ttriple   \n  trailing   \nend\"\"\"", "r'raw\\t\\n'", "b'bytes\\x00'",
     "f'{x}\t{y}'", "f'''multi {x}\n\tline'''", "'# not a comment'", "'quote \\' inside'", "\"mixed 'quotes'\"", "'x' * 3", "'''   '''", "'\\n\\n\\n\\n'", "''",
     "'a very long string literal that goes on and on and on and on and on and on and on and on and on and on and on and on and on'",
-    "u'legacy prefix'", "rb'raw bytes\\d'", "'unicode \u00e9\u4e2d\u6587 \U0001F600'", "'\\N{BULLET}'", "'line1\\\nline2'",
+    "'''one\n\nblank line'''", '"""a\n\nb\n\nc"""', "u'legacy prefix'", "rb'raw bytes\\d'", "'unicode \u00e9\u4e2d\u6587 \U0001F600'", "'\\N{BULLET}'", "'line1\\\nline2'",
 ]
 
 
